@@ -143,7 +143,7 @@ def judge(ctx, name, pts, shift, l, rep):
     if got != edges:
         miss = list((edges - got).items())[:3]; extra = list((got - edges).items())[:3]
         rep(f"edges differ from the adjacency of the periodic Delaunay triangles (missing {miss}, extra {extra})"); return False
-    if l.n_vertices != 2 * N or l.n_edges != 3 * N or not np.all(l.vertices.coordination_numbers == 3):
+    if l.n_vertices != 2 * N or l.n_edges != 3 * N or not np.all(core.degrees(l) == 3):
         rep(f"not trivalent with 2N vertices and 3N edges (V={l.n_vertices}, E={l.n_edges}, N={N})"); return False
     return True
 
@@ -297,6 +297,32 @@ def run(ctx):
                     ctx.case((name,), nontrivial=True)
             except Exception as ex:
                 rep(f"generate_lattice raised {type(ex).__name__}: {ex}")
+    # ---- medium sizes (a few hundred points), mostly with vertex shifting: code paths switched on by size that go wrong only for some point sets
+    for t in range(36 if quick else 200):
+        N = int(rng.integers(257, 420))
+        pts = rng.uniform(size=(N, 2))
+        shift = (t % 6 != 5)
+        name = f"uniform(N={N}){'s' if shift else ''}#{t}"
+        rep = lambda what, **kw: ctx.impl_violation(f"{name}: {what}", dict(case=name, points=pts.tolist(), shift=shift, **kw))
+        try:
+            with warnings.catch_warnings():
+                warnings.simplefilter("ignore")
+                l = vz.generate_lattice(pts, shift_vertices=shift)
+            # cheap consequences of the statement on every trial (trivalent, 2N vertices, 3N edges, crossings are cell offsets of neighbouring cells, vertices in
+            # the cell, one plaquette per point); the full comparison with the independent reference on every sixth
+            deg = np.bincount(l.edges.indices.flatten(), minlength=l.n_vertices)
+            if l.n_vertices != 2 * N or l.n_edges != 3 * N or np.any(deg != 3):
+                rep(f"V={l.n_vertices}, E={l.n_edges}, degrees {sorted(set(deg.tolist()))} for N={N} generic points (expected 2N, 3N, all 3)"); continue
+            if np.any(np.abs(l.edges.crossing) > 1) or np.any(l.vertices.positions < 0) or np.any(l.vertices.positions > 1):
+                rep("an edge crossing is not in {-1,0,1} or a vertex lies outside the unit cell"); continue
+            if not shift and l.n_plaquettes != N:                 # with vertex shifting the count is subject to the statement's side condition: judged in `judge`
+                rep(f"{l.n_plaquettes} plaquettes for {N} points"); continue
+            if t % 6 in (0, 5):
+                if not judge(ctx, name, pts, shift, l, rep):
+                    continue
+            ctx.case((name,), nontrivial=True)
+        except Exception as ex:
+            rep(f"generate_lattice raised {type(ex).__name__}: {ex}")
     # ---- Lloyd relaxation keeps the number of cells
     for t in range(3 if quick else 12):
         N = int(rng.integers(12, 40))
